@@ -62,6 +62,7 @@ func genC08(g *h.G) {
 	gc.genTLBModel()
 	gc.genProofs()
 	gc.genABIStacks()
+	gc.genDeep()
 	for len(gc.pendingFlags) > 0 {
 		gc.emitPendingFlag()
 	}
